@@ -129,8 +129,22 @@ def rebuild(g, w, b, src, edit):
             if edit == "change-id":
                 ident = QualifiedName(Namespace("ex", "http://example.org/"), "changed-id")
             elif edit == "swap-type":
-                kind = "Agent" if kind == "Entity" else ("Entity" if kind in ELEMENT_KINDS else
-                                                          ("Usage" if kind == "Generation" else "Generation" if kind == "Usage" else kind))
+                # another record class for the same statement; for relations one whose formal arguments line up by position
+                # (incl. the one pair of classes where one subclasses the other: specializationOf / mentionOf)
+                SWAP = {"Entity": "Agent", "Agent": "Activity", "Activity": "Entity", "Generation": "Usage", "Usage": "Invalidation",
+                        "Invalidation": "Generation", "Specialization": "Mention", "Mention": "Specialization",
+                        "Alternate": "Specialization", "Communication": "Influence", "Influence": "Attribution",
+                        "Attribution": "Communication", "Start": "End", "End": "Start", "Association": "Delegation",
+                        "Delegation": "Association", "Derivation": "Derivation", "Membership": "Alternate"}
+                new_kind = SWAP.get(kind, kind)
+                if new_kind != kind:
+                    from prov.model import PROV_REC_CLS
+                    f_old = list(PROV_REC_CLS[PROV[kind]].FORMAL_ATTRIBUTES)
+                    f_new = list(PROV_REC_CLS[PROV[new_kind]].FORMAL_ATTRIBUTES)
+                    ren = {a: (f_new[i] if i < len(f_new) else None) for i, a in enumerate(f_old)}
+                    attrs = [((ren[a], v) if a in ren else (a, v)) for (a, v) in attrs]
+                    attrs = [(a, v) for (a, v) in attrs if a is not None and not (a in f_new and not isinstance(v, (QualifiedName, datetime.datetime)))]
+                    kind = new_kind
                 if kind == rec.get_type().localpart:
                     attrs.append((PROV["label"], "type-swap-not-applicable"))
             else:
